@@ -584,6 +584,7 @@ namespace hs
             }
             break;
         }
+        case K_TEMP:
         case K_STACK:
         {
             auto big = (usz % 11 == 0);
@@ -993,8 +994,8 @@ namespace hs
         if (!S.o || S.husk)
             return;
         auto& c = S.o->caps;
-        if (c.kind == K_ITER)
-            return; // lifetime is the iteration count
+        if (c.kind == K_ITER || c.kind == K_TEMP)
+            return; // lifetime is the iteration count / the scope
         if (c.kind == K_STACK && a.fam == MEMBER)
             return; // no individual deallocation: lives until unwound
         if (c.kind == K_STATIC && a.fam == MEMBER)
@@ -1071,7 +1072,7 @@ namespace hs
         m.successes = S->successes;
         for (auto& o : S->markers)
             m.outer_len.push_back(o.tape.size());
-        if (!S->markers.empty())
+        if (!S->markers.empty() && S->o->caps.kind != K_TEMP) // (scopes of a temporary stack have no public markers)
         {
             auto& prev = S->markers.back();
             int   c    = S->o->compare_markers(prev.idx, m.idx);
@@ -1117,7 +1118,8 @@ namespace hs
             stats().hit("reach.unwind_nested");
         nontrivial_release_ = true;
         S->last_end_valid = false;
-        if (rel)
+        // (a temporary_allocator whose shrink_to_fit() was requested purges the cache when its scope ends)
+        if (rel && S->o->caps.kind != K_TEMP)
             violate("C06,C05", "unwind_released_upstream", "unwind returned %u block(s) upstream instead of "
                                                            "caching them",
                     rel);
@@ -1138,7 +1140,7 @@ namespace hs
             violate("C06", "unwind_top", "top() after unwind does not equal the marker");
         shadow_.check_all(cprop("C06,C01"), "after unwind (older allocations)");
         auto tape = M.tape;
-        bool ok   = M.tape_valid;
+        bool ok   = M.tape_valid && !(S->o->caps.kind == K_TEMP && S->shrunk);
         S->markers[mi].tape.clear();
         S->markers[mi].tape_valid = true;
         if (replay && ok && !tape.empty())
@@ -1246,7 +1248,7 @@ namespace hs
     {
         auto& T = objs_[dir & 1];
         auto& F = objs_[1 - (dir & 1)];
-        if (!T.o || !F.o || F.husk || !F.o->caps.assignable)
+        if (!T.o || !F.o || F.husk || !F.o->caps.assignable || !T.o->caps.assignable)
             return;
         auto& heap = SimHeap::get();
         int   ti = index_of(T), fi = index_of(F);
